@@ -194,6 +194,9 @@ class Battle(history.History):
         return None
 
 
+FORCE_END = False          # set by battlecheck.make_battle for every second battle of a version: battle end + a later change, for certain
+
+
 class Py2Str(str):
     """a text the Python 2 client pickles as a byte string"""
 
@@ -836,7 +839,7 @@ def events(b, rng, exp, ver, players, vehicles, consts):
             p['planesCount'] = planes_count.get(p.get('shipId', 0), 0)
     # battle end
     exp['battle_result'] = None
-    if rng.random() < 0.9:
+    if FORCE_END or rng.random() < 0.9:
         team, reason = rng.randint(0, 1), rng.randint(1, 20)
         m = b.method_def('Avatar', 'onBattleEnd')
         if m is not None:
@@ -857,7 +860,7 @@ def events(b, rng, exp, ver, players, vehicles, consts):
                 if b.call(AVATAR_ID, 'onBattleEnd', []):
                     exp['battle_result'] = {'winner_team_id': team, 'victory_type': reason}
                     b.trace.append(['battleEnd', team, reason])
-                    if rng.random() < 0.8:
+                    if FORCE_END or rng.random() < 0.8:
                         # the property keeps changing after the battle has ended (a new round is prepared): the result reported is the
                         # one the battle ended with
                         for i, (name, size, t, flags) in enumerate(b.views[b.world[LOGIC_ID]['type']]['clientProps']):
